@@ -5,13 +5,19 @@
  * argv: nthreads rounds seed.  Prints one line `ok readers=<n> writers=<n> maxr=<n>` or `FAIL ...`.
  * A watchdog (alarm) turns a hang into `FAIL hang`. */
 #define _GNU_SOURCE
-#include <plibsys.h>
+#include "pmem.h"
+#include "prwlock.h"
 #include <stdio.h>
 #include <stdlib.h>
 #include <string.h>
 #include <signal.h>
 #include <unistd.h>
 #include <pthread.h>
+
+/* allocation (pmem.c and its error machinery are not linked) */
+P_LIB_API ppointer p_malloc0 (psize n) { return calloc (1, n); }
+P_LIB_API ppointer p_malloc (psize n) { return malloc (n); }
+P_LIB_API void p_free (ppointer p) { free (p); }
 
 static PRWLock *lk;
 static volatile int stop_flag;
@@ -62,7 +68,6 @@ int main (int argc, char **argv) {
 	if (nt > 64) nt = 64;
 	signal (SIGALRM, on_alarm);
 	alarm (argc > 4 ? atoi (argv[4]) : 120);
-	p_libsys_init ();
 	lk = p_rwlock_new ();
 	if (!lk) { puts ("FAIL new"); return 2; }
 	for (i = 0; i < nt; i++) pthread_create (&th[i], NULL, worker, (void *) (size_t) (seed * 1000 + i + 1));
